@@ -89,11 +89,23 @@ def serverScope : ServerStage → Scope
 /-- blocking steps of one relay attempt (SMTP / LMTP client) -/
 inductive RelayStage
   | connect | tlsImmediate | banner | ehlo | helo | starttls | auth | mail | rcpt | data | sendData | rset | quit | close
+  | idleReply         -- _check_server_timeout: reading what a server said while the connection sat idle
 deriving Repr, DecidableEq
 
 def relayScope : RelayStage → Scope
   | .connect => .connect
   | .sendData => .data
   | _ => .command
+
+/-- the one blocking exchange of a pipe relay (the child process) and of an HTTP relay attempt (request and response) -/
+inductive OtherStage | pipeExec | httpRequest
+deriving Repr, DecidableEq
+
+def otherScope : OtherStage → Scope
+  | _ => .single
+
+def allServerStages : List ServerStage := [.tlsImmediate, .command, .data, .authResponse, .starttlsHandshake, .close]
+def allRelayStages : List RelayStage :=
+  [.connect, .tlsImmediate, .banner, .ehlo, .helo, .starttls, .auth, .mail, .rcpt, .data, .sendData, .rset, .quit, .close, .idleReply]
 
 end Slimta.Timeouts
